@@ -19,6 +19,7 @@ import (
 	"encoding/binary"
 	"fmt"
 	"hash/crc32"
+	"strings"
 	"unicode/utf16"
 
 	"github.com/diskfs/go-diskfs/partition/gpt"
@@ -236,7 +237,8 @@ func regimeFamilies(c *hx.Ctx, cfg gc.Cfg, r *hx.Rng) {
 	// every regime family is also classified through the any-geometry record-level reader (rg=, qg=), except old tables
 	// whose array is not at LBA 2 (outside the premise OldOkFlatG of the geometry theorems)
 	geoRun := func(p pairSpec) {
-		p.geo = true
+		// quick tier: the families lssx / rmw / stale / foreign; thorough tier: big and retry as well (cost of the model run)
+		p.geo = c.Thorough() || !(strings.HasPrefix(p.id, "big") || strings.HasPrefix(p.id, "retry"))
 		run(p)
 	}
 	smallSize := func(lss int) int64 { return (int64(2*(16384/lss)+3) + int64(r.Intn(60))) * int64(lss) }
